@@ -14,9 +14,12 @@
    a coherent graph (WF) whose nodes carry the stored attributes and children, the stored parents up to order, and
    whose attackers are the stored ones; without the model the nodes have no asset. C10_save_load composes it with the
    document codec. PARTIAL: the order of parent lists and of compromised_by is not modelled (the property speaks of the
-   same edges and attackers); that the content of every graph reachable through the API is loadable is checked on every
-   graph of the correspondence run (counted), not proved; the JSON / YAML text layer is trusted. *)
-From MT Require Import Prelude Graph GraphOps GraphInv Codec ModelIO GraphIO GraphLoad GraphLoadThm.
+   same edges and attackers). C10_every_history: the content of every coherent graph is loadable (content_gloadable), so for
+   EVERY history of the attack-graph machine (nodes, links, attackers, compromise, analysis, pruning, removal, copies)
+   saving the graph and loading the document with its model yields a coherent graph with the same nodes, children,
+   parents up to order, and attackers. Without the model the same holds with asset-less nodes for loadable contents
+   (C10_rebuild); the JSON / YAML text layer is trusted. *)
+From MT Require Import Prelude Graph GraphOps GraphInv Codec ModelIO GraphIO GraphLoad GraphLoadThm GraphSaveThm.
 
 Theorem C10_roundtrip_partial : forall fstr fparse name_of_id,
   (forall c n d, In n (gc_nodes c) -> gn_def n = Some d -> fparse (fstr d) = Some d) ->
@@ -56,6 +59,19 @@ Theorem C10_save_load : forall fstr fparse name_of_id wm c,
                Forall2 gn_equiv (gc_nodes (gcontent_of s)) (gc_nodes (expected wm c)) /\ gc_atts (gcontent_of s) = gc_atts c.
 Proof. exact save_then_gload. Qed.
 Print Assumptions C10_save_load.
+
+(* every coherent graph has a loadable content *)
+Theorem C10_coherent_is_loadable : forall s, WF s -> GLoadable true (gcontent_of s).
+Proof. exact content_gloadable. Qed.
+Print Assumptions C10_coherent_is_loadable.
+
+(* every history of the machine: save the graph it builds, load the document with the model *)
+Theorem C10_every_history : forall ops,
+  let s := final ops in
+  exists s', gload true (gcontent_of s) = Some s' /\ WF s' /\
+             Forall2 gn_equiv (gc_nodes (gcontent_of s')) (gc_nodes (gcontent_of s)) /\ gc_atts (gcontent_of s') = gc_atts (gcontent_of s).
+Proof. exact history_save_load. Qed.
+Print Assumptions C10_every_history.
 
 Definition exG : gcontent := mkGC
   [ mkGN 0%Z "or" "access" (Some "h") JNull [2%Z] [] ["eve"; "eve"] None None false true (Some "T1") ["x"; "y"] [("k", JInt 1%Z)];
